@@ -1,8 +1,7 @@
 // c20_cases.hh — case groups of w_c20.cc
 #pragma once
 #include "c20_sig.hh"
+#include "c20_sig2.hh"
 namespace c20 {
-inline void run_keysig(long &) {}
-inline void run_keyblock(long &) {}
 inline void run_enc(long &) {}
 }
